@@ -401,7 +401,7 @@ func apply3(op string, in *model3d.Mesh, first bool) (out *model3d.Mesh, st opSt
 			out = (&model3d.VoxelSmoother{StepSize: 0.1, Iterations: 5}).Smooth(in)
 		case "FlattenBase":
 			out = in.FlattenBase(0)
-		case "ARAP", "ARAPAbs", "ARAPUniform":
+		case "ARAP", "ARAPAbs", "ARAPUniform", "ARAPMixed":
 			a := model3d.NewARAP(in)
 			// ---- other weighting schemes (NewARAPWeighted), started from the Laplace guess
 			switch op {
@@ -409,6 +409,16 @@ func apply3(op string, in *model3d.Mesh, first bool) (out *model3d.Mesh, st opSt
 				a = model3d.NewARAPWeighted(in, model3d.ARAPWeightingAbsCotangent, model3d.ARAPWeightingAbsCotangent)
 			case "ARAPUniform":
 				a = model3d.NewARAPWeighted(in, model3d.ARAPWeightingUniform, model3d.ARAPWeightingUniform)
+			case "ARAPMixed":
+				// different schemes for the linear solves and for the rotations
+				pairs := [][2]model3d.ARAPWeightingScheme{
+					{model3d.ARAPWeightingUniform, model3d.ARAPWeightingCotangent},
+					{model3d.ARAPWeightingAbsCotangent, model3d.ARAPWeightingUniform},
+					{model3d.ARAPWeightingUniform, model3d.ARAPWeightingAbsCotangent},
+					{model3d.ARAPWeightingCotangent, model3d.ARAPWeightingUniform},
+				}
+				pr := pairs[in.NumTriangles()%len(pairs)]
+				a = model3d.NewARAPWeighted(in, pr[0], pr[1])
 			}
 			// ----
 			vs := in.VertexSlice()
@@ -423,6 +433,12 @@ func apply3(op string, in *model3d.Mesh, first bool) (out *model3d.Mesh, st opSt
 			})
 			// a rigid motion as the constraint set: quarter turn about z plus a translation
 			move := func(c model3d.Coord3D) model3d.Coord3D { return model3d.XYZ(-c.Y+1, c.X+2, c.Z-3) }
+			if op == "ARAPMixed" {
+				// with different schemes the iteration need not find its way from the Laplace guess to a turned
+				// copy (measured: it often does not); a translated copy IS the Laplace guess, and it is a fixed
+				// point of the iteration for any pair of schemes
+				move = func(c model3d.Coord3D) model3d.Coord3D { return model3d.XYZ(c.X+1, c.Y+2, c.Z-3) }
+			}
 			cons := model3d.ARAPConstraints{}
 			// four constraints per connected component (a rigid motion is determined by them)
 			comp := map[model3d.Coord3D]int{}
@@ -531,7 +547,7 @@ func apply3(op string, in *model3d.Mesh, first bool) (out *model3d.Mesh, st opSt
 	}
 	switch op {
 	case "Blur05", "Blur0", "Blur1", "SmoothAreas", "MeshSmoother", "VoxelSmoother", "FlattenBase", "ARAP", "ARAPSeq",
-		"BlurFiltered", "BlurNeg1", "ARAPAbs", "ARAPUniform":
+		"BlurFiltered", "BlurNeg1", "ARAPAbs", "ARAPUniform", "ARAPMixed":
 		// these move vertices and keep the face structure; if two vertices land on (nearly) the same
 		// coordinates the result is connected differently by construction - not decided
 		st.Merged = len(out.VertexSlice()) < len(in.VertexSlice()) || minVertexGap3(out) < 1e-9
